@@ -16,6 +16,8 @@ typedef struct {
 	int kform;              /* oct only: how k is written (KF_*) */
 	int npad;               /* RSA only: leading zero octets put in front of n (and the private members) */
 	const char *jwkalg;     /* C09 cells: the JWK names this algorithm itself and setkey is given JWT_ALG_NONE */
+	int defect;             /* C03 builder cells: a private key the provider cannot sign with -- 1: RSA modulus made even, 2: RSA d = 0,
+	                         * 3: EC d with one octet too many, 4: EC d = 0 */
 } pk_t;
 /* k written canonically; padded with '=' to a multiple of four; followed by "===="; followed by '=' and 80 more characters
  * (the decoder stops at the first '=': the key is still the octlen bytes ahead of it) */
@@ -291,7 +293,32 @@ static int attr_list(const pk_t *p, const char **out)
 static jwk_set_t *load_pk(const pk_t *p, int priv, const char *attr)
 {
 	char *txt;
-	if (p->vk && p->npad) {
+	if (p->vk && p->defect) {
+		json_t *j = json_deep_copy(priv ? p->vk->priv_jwk : p->vk->pub_jwk);
+		const char *mem = p->defect == 1 ? "n" : "d";
+		json_t *v = json_object_get(j, mem);
+		if (v) {
+			unsigned char raw[1200], out[1300];
+			long n = ref_b64_decode_strict(json_string_value(v), json_string_length(v), raw);
+			size_t on = n;
+			memcpy(out, raw, n);
+			if (p->defect == 1)
+				out[n - 1] &= 0xfe;
+			else if (p->defect == 3) {
+				out[0] = 1;
+				memcpy(out + 1, raw, n);
+				on = n + 1;
+			} else
+				memset(out, 0, n);
+			char enc[2000];
+			ref_b64_encode(out, on, enc);
+			json_object_set_new(j, mem, json_string(enc));
+		}
+		if (attr)
+			json_object_set_new(j, "alg", json_string(attr));
+		txt = tok_jdump(j, JSON_COMPACT);
+		json_decref(j);
+	} else if (p->vk && p->npad) {
 		/* the same key with non-minimal integers: zero octets in front of n (d, p, q as well) */
 		json_t *j = json_deep_copy(priv ? p->vk->priv_jwk : p->vk->pub_jwk);
 		static const char *mem[] = { "n", "d", "p", "q" };
@@ -798,6 +825,17 @@ static void enumerate_c03(void)
 	add_pool("p256a");
 	add_pool("ed25519a");
 	add_pool("k256");   /* the key one provider cannot use at all: a refusal, never an unsigned token */
+	if (vf_param == 0) {
+		/* private keys that import (with or without an item error) but with which signing itself fails inside the provider: the
+		 * builder must report that, never hand out header.payload. -- under OpenSSL only (nettle/gmp are not safe on inconsistent RSA keys) */
+		static const struct { const char *key, *name; int defect; } bad[] = {
+			{ "rsa2048a", "rsa2048a-even-n", 1 }, { "rsa2048a", "rsa2048a-d-zero", 2 }, { "p256a", "p256a-d-33-octets", 3 }, { "p256a", "p256a-d-zero", 4 } };
+		for (unsigned i = 0; i < sizeof bad / sizeof *bad; i++) {
+			add_pool(bad[i].key);
+			PK[NPK - 1].name = bad[i].name;
+			PK[NPK - 1].defect = bad[i].defect;
+		}
+	}
 	if (vf_thorough) {
 		add_oct("oct64", 64, NULL, 0);
 		add_pool("p384");
